@@ -49,7 +49,23 @@ def prepare(name):
 _PREP = __import__('threading').Lock()
 
 
-def run(name):
+def rebase_old(name):
+    """The patch applies to HEAD textually but the result does not compile there (HEAD gained enum variants, fields ..
+    since the patch was written): evaluate it on the newest earlier /repo commit it applies to."""
+    wt = os.path.join(RFW, name)
+    patch = os.path.join(HERE, "refactors", name + ".patch")
+    head = sh("git -C /repo rev-parse --short HEAD")[1].strip()
+    for ob, _ in OLD_BASES:
+        sh("git checkout -q -f --detach %s" % ob, cwd=wt)
+        sh("git clean -fdq -e .rf_base", cwd=wt)
+        rc, o = sh("git apply %s" % patch, cwd=wt)
+        if rc == 0:
+            open(os.path.join(wt, ".rf_base"), "w").write(ob + "! " + head + "\n")
+            return True
+    return False
+
+
+def run(name, _retry=True):
     with _PREP:
         wt = prepare(name)
     base = open(os.path.join(wt, ".rf_base")).read().split()[0]
@@ -77,6 +93,11 @@ def run(name):
             n -= len([k for k in keys if k in fixed_since])
         if n > 0:
             out.append("%s:%d" % (p, n))
+        if _retry and not base.endswith("!") and any("/R0/crate/compiles" in k for k in keys):
+            with _PREP:
+                okb = rebase_old(name)
+            if okb:
+                return run(name, _retry=False)
     return name, (" ".join(out) if out else "SILENT") + (" (old base)" if base.endswith("!") else "")
 
 
